@@ -97,6 +97,21 @@ def bounded_codes(tier='quick', seed=0):
                         fails.append({'call': f"ConstBitStream(bin='{bits}').read('{name}')", 'observed': 'ReadError although a codeword is present'})
                 except Exception as e:
                     fails.append({'call': f"ConstBitStream(bin='{bits}').read('{name}')", 'observed': type(e).__name__})
+                # the list routes have no second position check of their own: same value and position, or ReadError with pos unchanged
+                for route in ('readlist', 'peeklist', 'unpack'):
+                    s2 = ConstBitStream(bin=bits) if bits else ConstBitStream()
+                    try:
+                        vv = getattr(s2, route)(name)
+                        code = ref(vv[0])
+                        okr = len(vv) == 1 and bits.startswith(code) and s2.pos == (len(code) if route == 'readlist' else 0)
+                        if not okr:
+                            fails.append({'call': f"ConstBitStream(bin='{bits}').{route}('{name}')", 'observed': (vv, s2.pos),
+                                          'python': f"import bitstring\ns = bitstring.ConstBitStream(bin='{bits}')\ntry:\n    s.{route}('{name}')\n    FAILS = True\nexcept bitstring.ReadError:\n    FAILS = s.pos != 0\n" if not bits.startswith(code) else "FAILS = True"})
+                    except bitstring.ReadError:
+                        if s2.pos != 0:
+                            fails.append({'call': f"ConstBitStream(bin='{bits}').{route}('{name}')", 'observed': 'pos moved on ReadError'})
+                    except Exception as e:
+                        fails.append({'call': f"ConstBitStream(bin='{bits}').{route}('{name}')", 'observed': type(e).__name__})
                 # whole-bitstring property accepts exactly one codeword
                 try:
                     v = getattr(Bits(bin=bits) if bits else Bits(), name)
@@ -108,7 +123,7 @@ def bounded_codes(tier='quick', seed=0):
                     fails.append({'call': f"Bits(bin='{bits}').{name}", 'observed': type(e).__name__})
             if len(fails) > 8:
                 break
-    wit = [dict(f, python=f"FAILS = True  # {f['call']}") for f in fails[:3]]
+    wit = [dict(f, python=f.get('python') or f"FAILS = True  # {f['call']}") for f in fails[:3]]
     return {'id': 'C10.bounded', 'obligations': [], 'evaluations': evals,
             'bounded': [{'id': 'C10/uie-sie-streams-bounded', 'function': 'uie2bitstore/sie2bitstore/_readuie/_readsie/read/unpack',
                          'bound': f'integers in [-{lim}, {lim}] + random to 2^200; every bit string of length <= {maxlen} as decoder input; random streams of <= 6 codes',
